@@ -97,13 +97,29 @@ def _ord(P, R):
         R.violate("a", "heap-type", "AdvancedAgenda.activations is `%s`, not a BinaryHeap<Activation> per group" % (fty[0] if fty else None))
 
 
+def _find_pop(P, fn):
+    """(call in fn whose value is the popped Option<Activation>, where the pop lives). The pop may be written inline or
+    inside a closure handed to an Option/iterator adapter (`get_mut(..).and_then(|h| h.pop())`)."""
+    direct = [c for c in fn.calls() if c.name.endswith("BinaryHeap::pop") and c.bb in fn.normal_blocks()]
+    via = []
+    for cl in P.closures_of(fn):
+        if any(c.name.endswith("BinaryHeap::pop") for c in cl.calls()):
+            # the call in fn that receives this closure
+            for c in fn.calls():
+                if c.bb in fn.normal_blocks() and any(strip(fn.sym_operand(a))[:2] == ("agg", "closure:" + cl.name) for a in c.args):
+                    via.append((c, cl))
+    return direct, via
+
+
 def _pop_gates(P, R):
+    from sa.predtable import PredEval, free_data_test
     fn = P.one(AG + "::get_next_activation")
-    pops = [c for c in fn.calls() if c.name.endswith("BinaryHeap::pop") and c.bb in fn.normal_blocks()]
-    if len(pops) != 1:
-        R.undecide("b", "get_next_activation", "expected one BinaryHeap::pop, found %d" % len(pops), fn)
+    direct, via = _find_pop(P, fn)
+    if len(direct) + len(via) != 1:
+        # fall back: any call in fn whose closure argument pops
+        R.undecide("b", "get_next_activation", "expected one BinaryHeap::pop (inline or in a closure argument), found %d inline / %d in closures" % (len(direct), len(via)), fn)
         return
-    pop = pops[0]
+    pop = direct[0] if direct else via[0][0]
     heap = fmt_sym(fn.sym_operand(pop.args[0]), maxdepth=10)
     if "HashMap::get_mut(self.activations, self.focus)" in heap:
         R.hold("b", "the heap popped is activations[focus]", fn=fn, line=pop.line)
@@ -118,53 +134,88 @@ def _pop_gates(P, R):
                 ve = A.variant_edges(fn, b)
                 if ve and "Some" in ve:
                     entry = ve["Some"]
-    # sink: _0 = Some(activation)
-    sinks = [bb for (bb, j, s) in A.aggregates_of(fn, "std::option::Option::Some") if s[3][0] == 0]
-    if entry is None or not sinks:
-        R.undecide("b", "get_next_activation", "pop edge or return site not identified", fn)
-        return
     lp = [l for l in fn.loops() if pop.bb in l["body"]]
+    if entry is None or not lp:
+        R.undecide("b", "get_next_activation", "pop edge or loop not identified", fn)
+        return
     inner = sorted(lp, key=lambda l: len(l["body"]))[0]
     header = inner["header"]
+    popped = ("call", pop.bb)
 
-    def gate(name, flag_field, set_field, key_desc):
-        edges = set()
-        hit_flag = hit_set = False
-        for b in sorted(inner["body"]):
-            if fn.term(b)[2] != "switch":
-                continue
-            be = A.bool_edges(fn, b)
-            s = strip(fn.sym_switch(b))
-            if be is not None:
-                atom, val = A.norm_bool(fn.sym_switch(b), True)
-                fe, te = be
-                if flag_field and atom.endswith("." + flag_field) and "BinaryHeap::pop" in atom:
-                    # pass when the flag is false
-                    edges.add((b, fe, ("sw", 0)) if val else (b, te, ("sw", "otherwise")))
-                    hit_flag = True
-                if "HashSet::contains(self.%s," % set_field in atom and key_desc in atom:
-                    edges.add((b, fe, ("sw", 0)) if val else (b, te, ("sw", "otherwise")))
-                    hit_set = True
-            elif s[0] == "discr" and flag_field is None and fmt_sym(s[1], maxdepth=8).endswith(".activation_group"):
-                ve = A.variant_edges(fn, b)
-                if ve:
-                    none_t = ve.get("None", ve.get(None))
-                    for (t, lab) in fn.succ(b):
-                        if t == none_t and t != ve.get("Some"):
-                            edges.add((b, t, lab))
-                            hit_flag = True
-        if not hit_set or not hit_flag:
-            R.violate("b", "pop-gate-absent:%s" % name, "get_next_activation returns popped activations without the %s gate (flag test=%s, set test=%s)" % (name, hit_flag, hit_set), fn)
-            return
-        r = fn.reach(entry, avoid_edges=edges, avoid_blocks=[header])
-        if any(s in r for s in sinks):
-            R.violate("b", "pop-gate-bypass:%s" % name, "a popped activation can be returned without passing the %s gate" % name, fn)
+    def is_act_field(x, name):
+        x = strip(x)
+        return x[0] == "field" and x[2] == name and x[3].endswith("Activation")
+
+    def is_self_set(x, name):
+        x = strip(x)
+        return x[0] == "field" and x[2] == name and x[3].endswith("AdvancedAgenda")
+
+    def atom_of(s):
+        if s[0] == "is":
+            if is_act_field(s[1], "activation_group") and s[2] in ("Some", "None"):
+                return ("ag", s[2] == "None")
+            return None
+        s = strip(s)
+        if is_act_field(s, "no_loop"):
+            return "nl"
+        if is_act_field(s, "lock_on_active"):
+            return "lk"
+        if s[0] == "call" and s[1].endswith("HashSet::contains") and len(s[2]) == 2:
+            st, key = s[2]
+            k = strip(key)
+            if is_self_set(st, "fired_rules") and is_act_field(k, "rule_name"):
+                return "F"
+            if is_self_set(st, "locked_groups") and is_act_field(k, "agenda_group"):
+                return "L"
+            if is_self_set(st, "fired_activation_groups") and any(is_act_field(x, "activation_group") for x in walk(k)):
+                return "G"
+        if s[0] == "call" and s[1].endswith(("Option::is_some", "Option::is_none")) and s[2] and is_act_field(s[2][0], "activation_group"):
+            return ("ag", s[1].endswith("is_none"))
+        return None
+
+    names = ["nl", "F", "lk", "L", "ag", "G"]
+    rets = set(fn.return_blocks())
+
+    def classify(ex, ret):
+        if ex in rets:
+            r = strip(ret) if ret else None
+            if r is not None and r[0] == "agg" and r[1].endswith("Option::Some"):
+                return "return"
+            return "return-other"
+        return "skip"
+    pe = PredEval(P, atom_of)
+    table = pe.region_outcomes(fn, entry, rets | {header}, names, classify)
+    if table is None:
+        R.undecide("b", "get_next_activation", "decision table capped", fn)
+        return
+    bad, undec = [], []
+    for combo, outs in sorted(table.items()):
+        asg = dict(zip(names, combo))
+        if not asg["ag"] and asg["G"]:
+            continue        # G is meaningless without an activation group
+        want = "skip" if ((asg["nl"] and asg["F"]) or (asg["lk"] and asg["L"]) or (asg["ag"] and asg["G"])) else "return"
+        if outs == {want}:
+            continue
+        other = "return" if want == "skip" else "skip"
+        uk = pe.unknown_conds.get((combo, other + "?"), [])
+        if uk and any(all(free_data_test(c) for (c, o) in u) for u in uk):
+            u = [u for u in uk if all(free_data_test(c) for (c, o) in u)][0]
+            bad.append((asg, outs, want + " whatever `%s` is" % "`, `".join(fmt_sym(c, maxdepth=8) for (c, o) in u)))
+        elif any(o.endswith("?") or o == "return-other" for o in outs) or not outs:
+            undec.append((asg, outs))
         else:
-            R.hold("b", "return Some(activation) is cut off by the %s gate" % name, "%d pass edges" % len(edges), fn)
-            R.sample({"clause": "b", "gate": name, "pass_edges": sorted(str(e) for e in edges)})
-    gate("no-loop", "no_loop", "fired_rules", ".rule_name")
-    gate("lock-on-active", "lock_on_active", "locked_groups", ".agenda_group")
-    gate("activation-group", None, "fired_activation_groups", ".activation_group")
+            bad.append((asg, outs, want))
+    if undec and not bad:
+        R.undecide("b", "get_next_activation", "gate table not reducible to the six atoms for %d assignments, e.g. %s -> %s" % (len(undec), undec[0][0], sorted(undec[0][1])), fn)
+    for asg, outs, want in bad[:3]:
+        tv = ",".join("%s=%d" % (k, int(v)) for k, v in asg.items())
+        gate = "no-loop" if asg["nl"] and asg["F"] else "lock-on-active" if asg["lk"] and asg["L"] else "activation-group" if asg["ag"] and asg["G"] else "none"
+        R.violate("b", "pop-gate-table:%s:%s" % (gate, tv),
+                  "get_next_activation: a popped activation with no_loop=%s fired(rule)=%s lock_on_active=%s locked(group)=%s activation_group=%s fired(activation group)=%s is %s; expected %s (%s gate)" % (
+                      asg["nl"], asg["F"], asg["lk"], asg["L"], "Some" if asg["ag"] else "None", asg["G"], "/".join(sorted(outs)), want, gate), fn)
+    if not bad and not undec:
+        R.hold("b", "get_next_activation hands out a popped activation iff !(no_loop&&fired) && !(lock_on_active&&locked) && !(activation group fired)", "%d assignments of 6 atoms, helpers inlined" % len(table), fn)
+        R.sample({"clause": "b", "gate_table_rows": len(table)})
     # focus stack: on exhaustion focus := focus_stack.pop()?
     st = A.stores_to_field(fn, "focus", AG)
     okf = False
